@@ -210,15 +210,15 @@ theorem nestedA_witnesses :
     nestedA [] [] witnessArraySep = true ∧ nestedA [] [] witnessArrayParenFn = true ∧
     nestedA [] [] witnessNestedArray = true := by decide
 
-/-- what `nestedA` still excludes beyond plain bracket nesting, after the repairs d5de215 / cdb1ef6: a row
-that opens UNDERNEATH a parenthesis inside an array constant whose row a stray `)` closed
-(`{1)(ARRAYROW(2))}`) — the frames cannot represent it.  The evaluator does not panic on it (the checker
-is conservative here, the shape stays under the harness oracle). -/
-theorem nestedA_conservative_example :
+/-- the shape `nestedA` used to exclude — a row opened and closed UNDERNEATH a parenthesis inside an array
+constant whose first row a stray `)` closed; efp does emit it, for `{1)(ARRAYROW(2))}` — is inside the
+discipline now (rows and array constants are found through parentheses, as `array()` of calc.go finds
+them), so `eval_no_panic` covers it; likewise a row or a constant closed across an open parenthesis. -/
+theorem nestedA_rows_through_parentheses :
     nestedA [] [] [fstart "ARRAY", fstart "ARRAYROW", num "1", fstop, ⟨"", .subexpr, .start⟩, fstart "ARRAYROW",
-      num "2", fstop, ⟨"", .subexpr, .stop⟩, fstop, fstop] = false ∧
-    evalTokens semU [fstart "ARRAY", fstart "ARRAYROW", num "1", fstop, ⟨"", .subexpr, .start⟩, fstart "ARRAYROW",
-      num "2", fstop, ⟨"", .subexpr, .stop⟩, fstop, fstop] ≠ .panic := by decide
+      num "2", fstop, ⟨"", .subexpr, .stop⟩, fstop, fstop] = true ∧
+    nestedA [] [] [fstart "SUM", fstart "ARRAY", ⟨"", .subexpr, .start⟩, fstart "ARRAYROW", num "2", fstop, fstop,
+      ⟨"", .subexpr, .stop⟩, fstop] = true := by decide
 
 /-! ## deep nesting ("deep nesting … in bounded time without panicking": no stack overflow) -/
 
